@@ -957,6 +957,13 @@ def run(tier: str, replay: str | None = None):
     dk_fail, dk_stats = run_default_kinds(thorough)
     failing += dk_fail
 
+    # 5f. parameter names of every kind (round 5): module-level defs, lambdas, nested defs, nested lambdas
+    nk_fail, nk_known, nk_stats = run_name_kinds()
+    failing += nk_fail
+    if nk_known:
+        rep.known("C05-dunder-prefix-positional-only", KNOWN_TEXT["C05-dunder-prefix-positional-only"])
+        hist["known"]["C05-dunder-prefix-positional-only"] = nk_known
+
     # 6. verdicts
     for payload, obs, exp in failing[:10]:
         rep.violation({"kind": "failing-input", "input": payload, "observed": obs, "expected": exp, "how_to_run": "./check C05 --replay <this file>", "oracle": "CPython executes the call"})
@@ -986,7 +993,7 @@ def run(tier: str, replay: str | None = None):
         rep.harness_error("specification PyBind.py_bind_full disagrees with CPython on " + json.dumps(sb))
 
     rep.coverage.update(
-        evaluations=len(cases) + n_e2e + n_validity + len(kind_cases) + n_union + dk_stats["calls"],
+        evaluations=len(cases) + n_e2e + n_validity + len(kind_cases) + n_union + dk_stats["calls"] + nk_stats["calls"],
         distinct_nontrivial=len(distinct),
         rule="a case = (def signature, call shape); signatures: every def-expressible signature with <=3 parameters (all kinds x default patterns), a sample (thorough: all) with 4, random ones up to 6; "
         "call shapes: positional section of plain positionals / tuple displays / unknown-length *xs, keyword section of keywords (parameter names and strangers) / dict displays / unknown **kw, "
@@ -1007,6 +1014,10 @@ def run(tier: str, replay: str | None = None):
         callable_kind_calls=len(kind_cases),
         callable_kind_other_codes=kind_other,
         partial_calls_never_checked=n_partial_unchecked,
+        name_kind_functions=nk_stats["functions"],
+        name_kind_calls=nk_stats["calls"],
+        name_kind_accepted=nk_stats["accepted"],
+        name_kind_other_codes=nk_stats["other_codes"],
         default_kind_functions=dk_stats["functions"],
         default_kind_calls=dk_stats["calls"],
         default_kind_accepted=dk_stats["accepted"],
@@ -1029,6 +1040,9 @@ def run(tier: str, replay: str | None = None):
 
 
 KNOWN_TEXT = {
+    "C05-dunder-prefix-positional-only": "a parameter named `__x` (leading double underscore, no trailing one) and every positional parameter before it are treated as positional-only "
+    "(the legacy PEP 484 convention, analysis_lib.is_positional_only_arg_name) also for ordinary defs, lambdas and nested functions: f(a=1, __x=2) for def f(a, __x) is reported although CPython binds it, "
+    "and f(1, 2, __x=3) for def f(a, __x, **kw) is accepted although CPython raises",
     "C05-dict-display-first-key-wins": "for a dict display with a repeated constant key passed as **kwargs the FIRST pair reaches the parameter (covered_keys is never populated in _preprocess_kwargs_kv_pairs); "
     "CPython keeps the last: g(1, **{'b': x, 'b': 'x'}) is not reported for def g(a, b: int). Repair proposed: repo_fixes/C05-dict-display-last-key-wins.diff",
     "C05-partial-unchecked": "calls to a functools.partial object are never checked (pyanalyze sees typeshed's partial.__call__(*args, **kwargs)): "
@@ -1467,3 +1481,154 @@ def run_default_kinds(thorough=False):
                 failures.append(({"default": d, "def": hdr, "call": callees[i].rstrip("0123456789") + c, "sig": [], "raw": []},
                                  "accepted" if acc else "rejected (incompatible_call)", "CPython " + ("binds the call" if py else "raises TypeError")))
     return failures, stats
+
+
+# ---------------------------------------------------------------------------
+# round 5: parameter NAMES as an input dimension (module-level defs, nested defs, lambdas;
+# passed positionally / by keyword / through a **{...} display)
+
+NAME_POOL = ["_x", "__x", "__x__", "x__", "_", "__", "___", "X", "é", "名", "self", "cls", "x_1", "xX", "__x_", "_x__", "__class_name", "__init__", "kwargs", "args"]
+# header templates: {N} = the name under test, {M} = a second name derived from it (other case / suffix)
+NAME_SHAPES = ["a, {N}", "{N}, b", "a, {N}=0", "a, *, {N}", "a, {N}, **kw", "a, {N}, /, c", "{N}, {M}", "a, *r, {N}=0", "a, {N}, *, k=0"]
+
+
+def _second_name(n):
+    m = n.swapcase()
+    return m if m != n else n + "2"
+
+
+def name_cases():
+    out = []
+    for n in NAME_POOL:
+        for h in NAME_SHAPES:
+            hdr = h.replace("{N}", n).replace("{M}", _second_name(n))
+            try:
+                compile(f"def f({hdr}): pass", "<h>", "exec")
+            except SyntaxError:
+                continue
+            out.append((n, hdr))
+    return out
+
+
+def name_calls(n, hdr):
+    """call suffixes exercising positional / keyword / mapping passing of the parameters of hdr"""
+    import inspect
+
+    ns = {}
+    exec(f"def f({hdr}): pass", ns)
+    ps = [p for p in inspect.signature(ns["f"]).parameters.values()]
+    named = [p.name for p in ps if p.kind in (p.POSITIONAL_ONLY, p.POSITIONAL_OR_KEYWORD, p.KEYWORD_ONLY)]
+    posn = [p.name for p in ps if p.kind in (p.POSITIONAL_ONLY, p.POSITIONAL_OR_KEYWORD)]
+
+    def ident(x):
+        return x.isidentifier()
+
+    calls = ["(" + ", ".join(["1"] * len(posn)) + ")", "(1)", "()"]
+    calls.append("(" + ", ".join(f"{k}=1" for k in named) + ")")  # everything by keyword
+    calls.append("(**{" + ", ".join(f"{k!r}: 1" for k in named) + "})")  # everything through a display
+    if len(named) >= 2:
+        calls.append("(1, " + ", ".join(f"{k}=1" for k in named[1:]) + ")")
+        calls.append("(1, **{" + ", ".join(f"{k!r}: 1" for k in named[1:]) + "})")
+        calls.append("(" + ", ".join(["1"] * len(posn)) + f", {named[-1]}=1)")  # possibly twice
+    calls.append("(" + ", ".join(["1"] * len(posn)) + ", **{'class': 1})")  # a keyword that is not an identifier one could write
+    calls.append("(" + ", ".join(f"{k}=1" for k in named) + f", {_second_name(n)}_=1)")
+    return list(dict.fromkeys(calls))
+
+
+def legacy_posonly_transform(hdr):
+    """What the (documented, legacy PEP 484) convention of pyanalyze does: a parameter named `__x` (leading
+    double underscore, no trailing one) and every positional parameter before it are positional-only."""
+    import inspect
+
+    ns = {}
+    exec(f"def f({hdr}): pass", ns)
+    ps = list(inspect.signature(ns["f"]).parameters.values())
+    last = -1
+    for i, p in enumerate(ps):
+        if p.kind in (p.POSITIONAL_ONLY, p.POSITIONAL_OR_KEYWORD) and p.name.startswith("__") and not p.name.endswith("__"):
+            last = i
+    if last < 0:
+        return None
+    new = [p.replace(kind=p.POSITIONAL_ONLY) if i <= last and p.kind is p.POSITIONAL_OR_KEYWORD else p for i, p in enumerate(ps)]
+    sig = inspect.Signature(new)
+
+    def binds(args, kwargs):
+        try:
+            sig.bind(*args, **kwargs)
+            return True
+        except TypeError:
+            return False
+
+    return binds
+
+
+def run_name_kinds():
+    """-> (failures, known, stats)"""
+    import contextlib
+    import io
+
+    from pyanalyze.error_code import ErrorCode
+    from pyanalyze.test_name_check_visitor import TestNameCheckVisitorBase
+
+    cases = name_cases()
+    failures, stats = [], {"functions": 0, "calls": 0, "accepted": 0, "legacy_posonly_disagreements": 0, "other_codes": {}}
+    known = 0
+    for b0 in range(0, len(cases), 40):
+        chunk = cases[b0 : b0 + 40]
+        lines = []
+        sites = {}  # line -> (case index, wrapper, call)
+        for i, (n, hdr) in enumerate(chunk):
+            calls = name_calls(n, hdr)
+            lines.append(f"def f{i}({hdr}): return 0")
+            lines.append(f"lam{i} = lambda {hdr}: 0")
+            lines.append(f"def run{i}():")
+            lines.append(f"    def inner({hdr}): return 0")
+            lines.append(f"    nlam = lambda {hdr}: 0")
+            for c in calls:
+                for w, callee in (("def", f"f{i}"), ("lambda", f"lam{i}"), ("nested def", "inner"), ("nested lambda", "nlam")):
+                    lines.append(f"    {callee}{c}")
+                    sites[len(lines)] = (i, w, c)
+        code = "\n".join(lines) + "\n"
+        buf = io.StringIO()
+        try:
+            with contextlib.redirect_stderr(buf), contextlib.redirect_stdout(buf):
+                errs = TestNameCheckVisitorBase()._run_str(code, fail_after_first=False)
+        except Exception as ex:
+            failures.append(({"names": sorted({n for n, _ in chunk}), "def": "module with parameter names of every kind", "call": "-", "sig": [], "raw": []}, "pyanalyze raised " + repr(ex)[:300], "a verdict per call"))
+            continue
+        reported = set()
+        for e in errs:
+            if e["lineno"] in sites and e["code"] is ErrorCode.incompatible_call:
+                reported.add(e["lineno"])
+            elif e["code"].name not in ("method_first_arg",):
+                stats["other_codes"][e["code"].name] = stats["other_codes"].get(e["code"].name, 0) + 1
+        stats["functions"] += 4 * len(chunk)
+        for line, (i, w, c) in sites.items():
+            n, hdr = chunk[i]
+            ns = {}
+            exec(f"def f({hdr}): return 0", ns)
+            try:
+                eval("f" + c, ns)
+                py = True
+            except TypeError:
+                py = False
+            acc = line not in reported
+            stats["calls"] += 1
+            stats["accepted"] += int(acc)
+            if acc == py:
+                continue
+            # known convention: `__x` parameters (and those before them) are positional-only for pyanalyze
+            legacy = legacy_posonly_transform(hdr)
+            if legacy is not None:
+                try:
+                    a_, k_ = eval("(lambda *a, **k: (a, k))" + c)
+                    predicted = legacy(a_, k_)
+                except Exception:
+                    predicted = None
+                if predicted is not None and predicted == acc:
+                    stats["legacy_posonly_disagreements"] += 1
+                    known += 1
+                    continue
+            failures.append(({"name": n, "def": f"{w}: ({hdr})", "call": "f" + c, "sig": [], "raw": []},
+                             "accepted" if acc else "rejected (incompatible_call)", "CPython " + ("binds the call" if py else "raises TypeError")))
+    return failures, known, stats
